@@ -2,7 +2,10 @@ module sioverif/timed
 
 go 1.26.8
 
-require github.com/karagenc/socket.io-go v0.0.0
+require (
+	github.com/karagenc/socket.io-go v0.0.0
+	nhooyr.io/websocket v1.8.11
+)
 
 require (
 	github.com/deckarep/golang-set/v2 v2.6.0 // indirect
@@ -20,7 +23,6 @@ require (
 	golang.org/x/net v0.27.0 // indirect
 	golang.org/x/sys v0.22.0 // indirect
 	golang.org/x/text v0.16.0 // indirect
-	nhooyr.io/websocket v1.8.11 // indirect
 )
 
 replace github.com/karagenc/socket.io-go => /repo
